@@ -137,7 +137,39 @@ def main(argv):
         print("imported", sid, meta)
         return 0
     if not ids:
-        ids = sorted(os.listdir(SEEDED))
+        ids = sorted(d for d in os.listdir(SEEDED) if os.path.isdir(os.path.join(SEEDED, d)))
+    if cmd == "record":
+        # write the last `check` results into each meta.json and regenerate INDEX.md
+        res = json.load(open(os.path.join(VERIF, "out", "seeded-check.json")))
+        rows = []
+        for sid in ids:
+            mp = os.path.join(SEEDED, sid, "meta.json")
+            meta = json.load(open(mp))
+            r = res.get(sid)
+            if r and "fired" in r:
+                sc = meta.setdefault("static_checks", {})
+                sc["fired"] = sorted(r["fired"])
+                sc["first_reports"] = {c: (v[0] if v else "") for c, v in sorted(r["fired"].items())}
+                sc["checker_errors"] = sorted(r.get("broken", {}))
+                sc["how"] = "tools/seeded.py check (all quick checks on a scratch copy with the patch applied)"
+                json.dump(meta, open(mp, "w"), indent=1)
+            sc = meta.get("static_checks", {})
+            cb = meta.get("confirmed_by_me", {})
+            rows.append("| %s | %s | %s | %s | %s | %s |" % (
+                sid, meta.get("breaks", meta.get("property")), "yes" if cb.get("confirmed") else "no",
+                "yes" if sc.get("reported_at_first_attempt") else "no", ", ".join(sc.get("fired", [])) or "-- (miss)",
+                (meta.get("needs_to_manifest") or "")[:120]))
+        old = open(os.path.join(SEEDED, "INDEX.md")).read()
+        head = old[:old.index("| id |")]
+        tail = ""
+        body_end = old.rfind("\n|")
+        rest = old[body_end:].split("\n", 2)
+        tail = rest[2] if len(rest) > 2 else ""
+        open(os.path.join(SEEDED, "INDEX.md"), "w").write(
+            head + "| id | breaks | confirmed | reported at first attempt | quick checks that report it now | needs |\n|---|---|---|---|---|---|\n"
+            + "\n".join(rows) + "\n" + tail)
+        print("recorded", len(rows))
+        return 0
     fn = confirm if cmd == "confirm" else check
     out = {}
     with cf.ThreadPoolExecutor(max_workers=jobs) as ex:
